@@ -379,3 +379,18 @@ package litmus
 //@   ensures len(s) > 0 ==> result == old(s[0])
 //@   loop 1
 //@     invariant true
+
+//@ func same
+//@   ensures len(result) == len(s) && forall j int :: 0 <= j && j < len(s) ==> result[j] == s[j]
+//@ func badCallResultAlias
+//@   requires len(s) > 0
+//@   modifies s
+//@   ensures result == old(s[0])
+//@ func badShallowCopy
+//@   requires len(p.buf) > 0
+//@   modifies p
+//@   ensures result == old(p.buf[0])
+//@ func badSpread
+//@   requires len(s) > 0
+//@   modifies s
+//@   ensures result == old(s[0])
